@@ -40,6 +40,8 @@ type Obligation struct {
 	Props  []string `json:"properties"`
 	Path   []string `json:"path,omitempty"` // CFG/call path for path rules
 	Arch   string   `json:"arch,omitempty"`
+	// Producer is the registered rule function that was running when the obligation was added.
+	Producer string `json:"-"`
 }
 
 type Report struct {
@@ -48,6 +50,7 @@ type Report struct {
 	Assume     []string
 	Exceptions []string
 	seen       map[string]int
+	producer   string
 }
 
 func newReport() *Report { return &Report{seen: map[string]int{}} }
@@ -61,6 +64,7 @@ func (r *Report) add(o *Obligation) *Obligation {
 		o.Key = fmt.Sprintf("%s #%d", o.Key, n)
 	}
 	o.St = o.Status.String()
+	o.Producer = r.producer
 	r.Obls = append(r.Obls, o)
 	return o
 }
